@@ -55,7 +55,7 @@ vars == <<Family, prog, S, R, phase, bm, ops, crashed, fixbad, lastres, probes, 
 \* Families: which modules exist, in which order they are written, the statement menu of each module
 \* =========================================================================================================
 Present ==
-  CASE Family \in {"chain", "chain-q", "exports", "exports-q", "reexp", "reexp-q", "topstar", "splice"} -> {"p", "p.a", "p.b"}
+  CASE Family \in {"chain", "chain-q", "exports", "exports-q", "reexp", "reexp-q", "topstar", "splice", "attrall"} -> {"p", "p.a", "p.b"}
     [] Family \in {"pkg", "pkg-q"} -> {"p", "p.s", "p.s.c"}
     [] Family \in {"graph", "graph-q", "fine"} -> {"p", "p.a", "p.b", "q"}
     [] Family \in {"wild", "wild-q", "retarget", "retarget-q", "selfcyc", "twostar", "apicyc"} -> {"p", "p.a", "p.b"}
@@ -65,7 +65,7 @@ Present ==
     [] Family = "side" -> {"p", "q", "r"}
     [] OTHER -> {"p"}
 ModOrder ==
-  CASE Family \in {"chain", "chain-q", "exports", "exports-q", "wild", "wild-q", "retarget", "retarget-q", "reexp", "reexp-q", "splice"} -> <<"p.a", "p.b", "p">>
+  CASE Family \in {"chain", "chain-q", "exports", "exports-q", "wild", "wild-q", "retarget", "retarget-q", "reexp", "reexp-q", "splice", "attrall"} -> <<"p.a", "p.b", "p">>
     [] Family \in {"pkg", "pkg-q"} -> <<"p.s.c", "p.s", "p">>
     [] Family = "topstar" -> <<"p.a", "p", "p.b">>
     [] Family = "spl-down" -> <<"p.s", "p.b", "p.a", "p">>    \* p.a splices p.b's __all__, which splices p.s's: dependents are expanded first
@@ -98,8 +98,8 @@ Menu(m) ==
                             \cup (IF Quick THEN {} ELSE {All(<<"x", "y">>), AllInc(<<"x">>, "b_all"), From("p.b", "__all__"), Star("p.a")}) )
     [] Family \in {"reexp", "reexp-q"} ->      \* re-exports through a module that also star-imports, package with __all__
         ( CASE m = "p.a" -> {Def("x"), Def("y")}
-            [] m = "p.b" -> {FromAs("p.a", "x", "y"), Star("p.a")}
-                            \cup (IF Quick THEN {} ELSE {From("p.a", "x"), Def("y"), FromAs("p.a", "y", "x"), Def("x"), All(<<"y">>)})
+            [] m = "p.b" -> {FromAs("p.a", "x", "y"), Star("p.a"), Def("y")}
+                            \cup (IF Quick THEN {} ELSE {From("p.a", "x"), FromAs("p.a", "y", "x"), Def("x"), All(<<"y">>)})
             [] OTHER ->     {From("p.b", "y"), All(<<"y">>)}
                             \cup (IF Quick THEN {} ELSE {From("p.b", "x"), Star("p.b"), All(<<"x">>), All(<<"x", "y">>), FromAs("p.b", "y", "x")}) )
     [] Family = "splice" ->        \* a spliced __all__ below a package that has an __all__ (so that expand_exports reaches it), star-imported
@@ -142,6 +142,10 @@ Menu(m) ==
         ( CASE m = "p.a" -> {ImportAs("p.a", "y"), From("p.a.y", "x"), Def("x")}
             [] m = "p.b" -> {From("p.a", "x"), ImportAs("p.a", "y"), From("p.b.y", "x")}
             [] OTHER -> {From("p.b", "x"), From("p.a", "x")} )
+    [] Family = "attrall" ->       \* __all__ extended with another module's __all__ through an ATTRIBUTE access (`__all__ += a.__all__`)
+        ( CASE m = "p.a" -> {Def("x"), All(<<"x">>)}
+            [] m = "p.b" -> {From("p", "a"), ImportAs("p.a", "a"), All(<<>>), AugInc("@a"), AllInc(<<>>, "@a")}
+            [] OTHER -> {All(<<>>)} )
     [] Family = "topstar" ->
         ( CASE m = "p.a" -> {Def("x"), Def("y"), All(<<"x">>)}
             [] m = "p" -> {FromAs("p.a", "__all__", "a_all"), Star("p.a"), AllInc(<<>>, "a_all"), All(<<"x">>), Def("y")}
@@ -187,6 +191,7 @@ MaxLen(m) ==
     [] Family \in {"reexp", "reexp-q"} -> 2
     [] Family = "topstar" -> (IF m = "p" THEN 3 ELSE IF m = "p.b" THEN 1 ELSE 2)
     [] Family = "splice" -> (IF m = "p.b" THEN 3 ELSE 2)
+    [] Family = "attrall" -> (IF m = "p.b" THEN 3 ELSE IF m = "p" THEN 1 ELSE 2)
     [] Family \in {"spl-down", "spl-up"} -> (IF m = "p" THEN 1 ELSE 2)
     [] Family = "side" -> (IF m = "r" THEN 1 ELSE 2)
     [] Family = "selfcyc" -> 2
@@ -206,6 +211,7 @@ MaxTotal ==
   ELSE IF Family = "side" THEN (IF Scale = "quick" THEN 4 ELSE 5)
   ELSE IF Family = "selfcyc" THEN (IF Scale = "quick" THEN 3 ELSE 4)
   ELSE IF Family = "twostar" THEN 3
+  ELSE IF Family = "attrall" THEN 6
   ELSE IF Family = "facade" THEN 5
   ELSE IF Family = "updots" THEN 4
   ELSE IF Family = "aliasstar" THEN 4
@@ -237,13 +243,16 @@ RECURSIVE StaticNames(_, _, _)
 StaticNames(pr, m, fuel) ==     \* names some statement of m may bind
   {BoundName(s) : s \in {t \in StmtsOf(pr, m) : t.op # "star" /\ t.op # "aug"}}
   \cup (IF fuel = 0 THEN {} ELSE UNION {StaticNames(pr, s.m, fuel - 1) : s \in {t \in StmtsOf(pr, m) : t.op = "star" /\ t.m \in Present}})
+IncOK(pr, m, inc) ==
+  \/ inc = ""
+  \/ inc \in AttrIncs /\ \E t \in StmtsOf(pr, m) : t.op \in {"from", "import"} /\ BoundName(t) = AttrBase(inc)
+  \/ inc \notin AttrIncs /\ \E t \in StmtsOf(pr, m) : t.op = "from" /\ t.n = "__all__" /\ t.as = inc
 Plausible(pr, m, s) ==
   CASE s.op = "from" -> s.m \in Present /\ (s.n \in StaticNames(pr, s.m, 3) \/ ModOfParts(PP(s.m) \o <<s.n>>) \in Present)
     [] s.op = "star" -> s.m \in Present
     [] s.op = "import" -> s.m \in Present
-    [] s.op = "all" -> (s.inc = "" \/ \E t \in StmtsOf(pr, m) : t.op = "from" /\ t.n = "__all__" /\ t.as = s.inc)
-    [] s.op = "aug" -> (\E t \in StmtsOf(pr, m) : t.op = "all")
-                       /\ (s.inc = "" \/ \E t \in StmtsOf(pr, m) : t.op = "from" /\ t.n = "__all__" /\ t.as = s.inc)
+    [] s.op = "all" -> IncOK(pr, m, s.inc)
+    [] s.op = "aug" -> (\E t \in StmtsOf(pr, m) : t.op = "all") /\ IncOK(pr, m, s.inc)
     [] OTHER -> TRUE
 \* a finished module: every string in its __all__ statements is a name the module (statically) binds or a sub-module
 ModuleOK(pr, m) ==
@@ -386,7 +395,8 @@ StepEE(S0, t) ==
               IF ~it.e THEN SetTop(S0, [t EXCEPT !.q = Append(@, it), !.i = @ + 1])
               ELSE \*   module_path = export.canonical_path.rsplit(".", 1)[0]
                    \*   next_module = self.modules_collection.get_member(module_path)      (KeyError: continue)
-                   LET cp == ResolveName(S0, m, it.s)
+                   \* (attribute form `b.__all__`: ExprName("__all__", parent=ExprName("b", parent=module)) -> canonical path of b + ".__all__")
+                   LET cp == IF it.s \in AttrIncs THEN ResolveName(S0, m, AttrBase(it.s)) \o <<"__all__">> ELSE ResolveName(S0, m, it.s)
                        mp == IF Len(cp) > 1 THEN Front(cp) ELSE cp
                    IN CallF(S0, [t EXCEPT !.st = "item-lk"], FrLK(mp))
     [] t.st = "item-lk" ->
